@@ -3,7 +3,7 @@ CHECKS['C02'] = dict(
     design_ref='DESIGN.md 4 C02',
     technique='exhaustive small-scope enumeration of well-formed UPDATEs (structure x attributes x encodings x sessions) rendered by an independent RFC reference encoder, through the real decoder, JSON encoder and Adj-RIB-In',
     text='4 sessions (ASN4 on/off x ADD-PATH receive on/off) x ~320 UPDATE structures (withdrawn, NLRI, MP_REACH incl. 32-byte next hops, labeled, VPN, IPv4-over-IPv6, MP_UNREACH; same prefix with two path ids) x every single optional attribute value; '
-         'for core structures every pair (thorough: triple) of optional attributes, every AS path shape x ORIGIN, 12 AS_PATH/AS4_PATH pairs, every order of 3 attributes, rotations, extended length, partial bit; every EOR form. '
+         'for core structures every pair (thorough: triple; thorough also every pair on every structure) of optional attributes, every AS path shape x ORIGIN, 12 AS_PATH/AS4_PATH pairs, every order of 3 attributes, rotations, extended length, partial bit; every EOR form. '
          'The bytes come from vt/ref/wire.py (whose strict decoder is asserted to agree), go through Message.unpack, Response.JSON.update and UpdateHandler into a pre-loaded Adj-RIB-In, and the canonicalised JSON and table are compared with the abstract UPDATE.',
     note='Trusted: vt/ref/wire.py encoder/decoder and merge_as4 (both hop-count and AS-count readings accepted). JSON spelling canonicalised; link-local half of a 32-byte next hop may be omitted. Outside: BGP-LS/EVPN/FlowSpec payloads (C15/C16), >2 NLRIs per section.',
 )
